@@ -116,6 +116,8 @@ def script_and_template(cid, path, steps):
             lines.append("soption 0 0 hex:%s" % s["str"].hex())
         elif s["op"] == "setlen":
             lines.append("ioption 0 3 %d" % s["len"])
+        elif s["op"] == "reinit":
+            lines.append("init_adv_read 0 0")
         else:
             lines.append("%s 0" % s["op"])
         lines.append("clear_error 0")
@@ -129,7 +131,7 @@ def enrich(evs, steps, buf, sealed, refbuf=None):
     lead_ok = ref.parse_header(buf).lead_size is not None         # the candidate's own bytes contain a complete lead
     ft = h.hash_type
     out = [{"op": "reset"}]
-    calls = [e for e in evs if e["op"] in ("ioption", "soption", "validate_lead", "read_lead", "read_header", "clear_error")]
+    calls = [e for e in evs if e["op"] in ("ioption", "soption", "validate_lead", "read_lead", "read_header", "clear_error") or (e["op"] == "init_adv_read" and e.get("i", 9) > 3)]
     i = 0
     pinned = None
     for s in steps:
@@ -150,6 +152,8 @@ def enrich(evs, steps, buf, sealed, refbuf=None):
             out.append({"op": "setdigest", "rightlen": rl, "allhex": ah, "eq": eq, "ret": e["ret"], "es": es})
         elif s["op"] == "setlen":
             out.append({"op": "setlen", "l": "file" if s["len"] == h.hdr_total else "other", "ret": e["ret"], "es": es})
+        elif s["op"] == "reinit":
+            out.append({"op": "reinit", "ret": e["ret"], "es": es})
         elif s["op"] == "validate_lead":
             out.append({"op": "validate_lead", "leadOk": lead_ok, "ret": e["ret"], "es": es, "pos": e.get("off", -1)})
         elif s["op"] == "read_lead":
@@ -210,6 +214,13 @@ def run(tier):
                 s = good[:pos] + bytes([c]) + good[pos + 1:]
                 steps = [{"op": "settype", "type": h.hash_type}, {"op": "setdigest", "str": s}, {"op": "validate_lead"}, {"op": "read_lead"}, {"op": "read_header"}]
                 cases.append(("sw%d-%d-%d" % (fi, pos, c), path, buf, sealed, steps, buf))
+    # state carried between calls: in every third case the context is initialised for reading AGAIN (same descriptor) after
+    # the pins were set and before the lead is looked at; the pins stay in force (Pin!Reinit)
+    for k, c in enumerate(cases):
+        steps = c[4]
+        firstlead = [j for j, s in enumerate(steps) if s["op"] in ("validate_lead", "read_lead", "read_header")]
+        if k % 3 == 1 and firstlead and firstlead[0] > 0:
+            cases[k] = (c[0] + "R", c[1], c[2], c[3], steps[:firstlead[0]] + [{"op": "reinit"}] + steps[firstlead[0]:], c[5])
     scripts = {}
     for (cid, path, buf, sealed, steps, refbuf) in cases:
         scripts[cid] = script_and_template(cid, path, steps)
